@@ -15,14 +15,17 @@ RULE = ('each generated deck (flat / universes / lattices / LIKE cells, with TR 
         'TR and IMP cards. The written file must be byte-identical to that of the canonical text apart from the '
         'header comment. Also: the 128 upstream decks of the repository are converted (corpus, must not raise). '
         'Streams cards: get_cards/Card.content vs the Lean lexer model. Distinct = (deck, style).')
-NOT_PROVED = ['block splitting at blank lines, letter case and the card-splitting regular expressions (decided by the cards correspondence and the restyling differential)']
+NOT_PROVED = ['letter case (lower-casing is done per parser) and the regular expressions that split a cell / surface / data card into '
+              'its fields: decided by the restyling differential only',
+              'the block splitter is modelled at the level of lines (what \\n separates); \\r and a blank first line are outside the model']
 ASSUMPTIONS = ['densities and material fractions are only respelled within their spelling class (C09): the strings are '
                'copied into composition names / the COMPOSITION block']
 
 
 def plan(tier):
     q = tier == 'quick'
-    return [('restyle', 150 if q else 3000, {}), ('corpus', 1, {}), ('cards', 200 if q else 3000, {})]
+    return [('restyle', 150 if q else 3000, {}), ('corpus', 1, {}), ('cards', 200 if q else 3000, {}),
+            ('blocks', 300 if q else 6000, {})]
 
 
 def search_plan(tier, disagreements):
@@ -84,6 +87,8 @@ def run_case(stream, seed, ctx, params):
         return corpus_case(ctx)
     if stream == 'cards':
         return cards_case(seed, rng, ctx)
+    if stream == 'blocks':
+        return blocks_case(seed, rng, ctx)
     d = base_deck(rng)
     if d is None:
         return None
@@ -167,6 +172,64 @@ def corpus_case(ctx):
                                   {'stream': 'corpus', 'class': 'not-wellformed', 'deck': os.path.basename(f)}, {'file': f}))
     return dict(evaluations=n, hashes=[h(i) for i in range(n)], nontrivial_hashes=[h(i) for i in range(n)],
                 dist={'corpus:decks': n}, sample={'decks': n}, failures=fails[:5])
+
+
+def blocks_case(seed, rng, ctx):
+    """get_block_positions on a random text (message block or not, blank lines of every kind and number between the
+    blocks, too many blocks) vs the Lean model of the block splitter; the theorems of Props/C14 (delimiter_immaterial,
+    message_block_immaterial) are about that model"""
+    from MIP.mip.blocks import get_block_positions
+    pool = ['title card', '1 0 -1 imp:n=1', '2 0 1', '1 so 5', 'm1 1001 1', 'c comment', '     cont', 'x', '  y  ', 'tr1 1 2 3',
+            '10 like 1 but u=2', 'imp:n 1 2r 0']
+    blanks = ['', ' ', '  \t', '\t', '     ']
+    lines = []
+    msg = rng.random() < 0.35
+    if msg:
+        lines.append(rng.choice(['message: outp=x', 'MESSAGE: a b', '  Message:  b', 'message:', 'messages: no', 'message: datapath=/x/y']))
+        if rng.random() < 0.3:
+            lines.append('      continued message')
+        if rng.random() < 0.85:
+            lines += [rng.choice(blanks) for _ in range(rng.randint(1, 3))]
+    for i in range(rng.randint(1, 11)):
+        # the first line of a deck is its title: never blank
+        lines.append(rng.choice(pool) if (rng.random() < 0.7 or not lines or (i == 0 and not msg)) else rng.choice(blanks))
+    text = '\n'.join(lines) + rng.choice(['', '\n', '\n\n', ' \n', '\n \n'])
+    if not text.strip() or not text.split('\n')[0].strip():
+        return None
+    key = h(text)
+
+    def canon(ls):
+        ls = list(ls)
+        while ls and ls[-1] == '':
+            ls.pop()
+        return ls
+    try:
+        d = get_block_positions(text)
+        code = {k: canon(text[a:b].split('\n')) for k, ((a, b), _ln) in d.items()}
+    except Exception as e:  # noqa
+        code = ('error', type(e).__name__)
+    resp = ctx['drv'].ask('blocks ' + lean.hx(text))
+    fails = []
+    if resp.startswith('ok error'):
+        model = ('error', resp.split()[2])
+    elif resp.startswith('ok '):
+        model = {}
+        for item in resp.split()[1:]:
+            k, v = item[0], item[1:]
+            if v != '-':
+                model[k] = canon(lean.unhx(v[1:]).split('\n')) if v[1:] else []
+    else:
+        model = None
+        fails.append(fail('disagreement', 'driver: ' + resp, {'stream': 'blocks'}, {'text': text}))
+    if model is not None:
+        same = (isinstance(model, tuple) and isinstance(code, tuple)) or (not isinstance(model, tuple) and model == code)
+        if not same:
+            fails.append(fail('disagreement', 'text %r: code blocks %r / model %r' % (text, code, model), {'stream': 'blocks'}, {'text': text}))
+    nblocks = len(code) if isinstance(code, dict) else 0
+    return dict(hashes=[key], nontrivial_hashes=[key] if nblocks >= 3 else [],
+                dist={'blocks:n-%d' % nblocks: 1, 'blocks:message' if msg else 'blocks:plain': 1,
+                      'blocks:error' if isinstance(code, tuple) else 'blocks:ok': 1},
+                sample={'text': text, 'blocks': code if isinstance(code, dict) else list(code)}, failures=fails)
 
 
 def cards_case(seed, rng, ctx):
